@@ -213,6 +213,8 @@ def family(pid, nm, P, tier, ops=("assess", "simulate", "importance", "update", 
 
                 obs.append(Ob(f"{pid}/update{list(sub)}{'+args' if chg else ''}=ref/{nm}", f_upd, (KEY, P.args, ex, ex2, args2),
                               assume=lambda k, a, v, v2, a2: A(a, v) + A(a2, v2), note="after update: score/retval/presence == reference at the new trace's values and args"))
+    if "update" in ops:
+        obs += update_at_index_obs(pid, nm, P)
     if "regenerate" in ops and "regenerate" in P.supports:
         for sn, sel in [("all", S.all()), ("none", S.none())] + [(str(s.static_addr), S.at[s.static_addr]) for s in P.sites[:2] if s.static_addr]:
             def f_reg(key, args, vals, sel=sel):
@@ -249,4 +251,51 @@ def family(pid, nm, P, tier, ops=("assess", "simulate", "importance", "update", 
             obs.append(Ob(f"{pid}/index-update[{K.sites[si].static_addr}]=ref/{nm}", f_idx, (KEY, P.args, ex, jnp.int32(1), nv),
                           assume=lambda k, a, v, i, nv_, nlen=nlen: A(a, v) + [i[()] >= 0, i[()] < nlen],
                           note="IndexRequest(i symbolic, Update(site)): only element i changes; trace == reference loop; weight == newscore-oldscore"))
+    return obs
+
+
+def update_at_index_obs(pid, nm, P, mode="full"):
+    """Update(C[i, addr].set(v)) with a symbolic index i on a vmap/scan program (optionally with changed args):
+    the constraint reaches every element other than i as a masked-off constraint.
+    mode 'full': compare with the reference (values, presence, score, retval, weight);
+    mode 'agree': the new trace agrees with assess on its own choices/args (C01);
+    mode 'score': new trace score == reference log-density at its own values and args (C02)."""
+    from genjax import Update
+
+    if not ("update" in P.supports and P.kind in ("vmap", "scan") and P.meta["n"] > 0 and all(len(s_.batch) == 1 for s_ in P.sites)):
+        return []
+    A = base_assume(P, in_range=False)
+    ex = P.example_vals()
+    args2 = jax.tree_util.tree_map(lambda x: x + 0.25 if jnp.issubdtype(x.dtype, jnp.floating) else x, P.args)
+    nlen = P.meta["n"]
+    obs = []
+    for si, st in enumerate(P.sites[:2]):
+        nv = (st.example[0] + 0.5) if st.example.dtype == jnp.float32 else st.example[0]
+        for chg in (False, True):
+            def f_iu(key, args, vals, i, newv, args2, si=si, st=st, chg=chg):
+                tr, _ = P.gf.importance(key, P.chm(vals), args)
+                ad = Diff.unknown_change(args2) if chg else Diff.no_change(args)
+                tr2, w, rd, bwd = Update(C[(i,) + st.static_addr].set(newv)).edit(key, tr, ad)
+                if mode == "agree":
+                    sc, rv = P.gf.assess(tr2.get_choices(), tr2.get_args())
+                    return (tr2.get_score(), PG.norm_ret(P, tr2.get_retval())), (sc, PG.norm_ret(P, rv))
+                if mode == "score":
+                    r_new = P.ref(args2 if chg else args, trace_vals(P, tr2))
+                    return (tr2.get_score(),), (r_new.score,)
+                lhs, rhs = full_view(P, tr2)
+                got = chm_view(P, tr2.get_choices())
+                for j, s_ in enumerate(P.sites):
+                    sel_i = (jnp.arange(nlen) == i).reshape((nlen,) + (1,) * (vals[j].ndim - 1))
+                    expect = jnp.where(sel_i, jnp.broadcast_to(newv, vals[j].shape), vals[j]) if j == si else vals[j]
+                    lhs.append(got[j][0])
+                    rhs.append(masked(expect, got[j][1], s_)[0])
+                r_old = P.ref(args, vals)
+                r_new = P.ref(args2 if chg else args, trace_vals(P, tr2))
+                lhs += [w, tr2.get_args()]
+                rhs += [r_new.score - r_old.score, args2 if chg else args]
+                return lhs, rhs
+
+            obs.append(Ob(f"{pid}/update-at-index[{st.static_addr}]{'+args' if chg else ''}{'=ref' if mode != 'agree' else ''}/{nm}", f_iu, (KEY, P.args, ex, jnp.int32(1), nv, args2),
+                          assume=lambda k, a, v, i, nv_, a2, nlen=nlen: A(a, v) + A(a2) + [i[()] >= 0, i[()] < nlen],
+                          note="importance(full); Update(C[i, addr].set(v)), i symbolic in range (+ changed args): only element i takes the new value; other elements see a masked-off constraint"))
     return obs
